@@ -635,6 +635,124 @@ let cbicrash_line line =
     end
   | _ -> ()
 
+
+(* ---------------- extraction canary ----------------
+   `driver canary-<kind> <cases file>` prints, for each (small) case of the usual case file, a Coq `Example` stating
+   that the SAME model function applied to the SAME arguments - written out as Gallina terms - equals the value the
+   extracted OCaml code computed here.  coqc then re-computes every left-hand side inside the kernel (vm_compute):
+   extraction, the OCaml compiler and the value plumbing of this driver are checked on those cases. *)
+let cz z = "(" ^ dec_of_z z ^ ")"
+let czl l = "[" ^ String.concat "; " (List.map cz l) ^ "]"
+let cbool b = if b then "true" else "false"
+let copt f = function None -> "None" | Some x -> "(Some " ^ f x ^ ")"
+let clist f l = "[" ^ String.concat "; " (List.map f l) ^ "]"
+let canary_n = ref 0
+let example lhs rhs =
+  incr canary_n;
+  Printf.printf "Example canary_%d : %s = %s. Proof. vm_compute. reflexivity. Qed.\n" !canary_n lhs rhs
+
+let canary_c17 line =
+  match split_ws line with
+  | _ :: win :: rest ->
+    let ops = match rest with [] -> "-" | o :: _ -> o in
+    let nops = if ops = "-" then 0 else String.length ops / 3 in
+    let w = unhex win in
+    if List.length w <= 1500 && List.length w >= 1 && nops <= 1500 then begin
+      let zw = List.map z_of_int w in
+      let ol = List.init nops (fun i ->
+        let x = z_of_int (int_of_string ("0x" ^ String.sub ops (3 * i + 1) 2)) in
+        if ops.[3 * i] = 'R' then Roll x else Push x) in
+      let ((r, f), _) = run_ops (rc_new zw) (frc_new zw) zw ol in
+      example
+        (Printf.sprintf "(let '(r, f, _) := run_ops (rc_new %s) (frc_new %s) %s %s in (rc_digest r, ra r, rb r, rcount r, frc_digest f, fcount f))"
+           (czl zw) (czl zw) (czl zw) (clist (function Roll x -> "Roll " ^ cz x | Push x -> "Push " ^ cz x) ol))
+        (Printf.sprintf "(%s, %s, %s, %s, %s, %s)" (cz (rc_digest r)) (cz (ra r)) (cz (rb r)) (cz (rcount r)) (cz (frc_digest f)) (cz (fcount f)))
+    end
+  | _ -> ()
+
+let cop = function Copy (o, l) -> Printf.sprintf "Copy %s %s" (cz o) (cz l) | Lit d -> "Lit " ^ czl d
+let canary_cdelta line =
+  match split_ws line with
+  | _ :: bs :: basis :: src :: _ when String.length basis + String.length src <= 12000 ->
+    let bsi = int_of_string bs in
+    let bsn = nat_of_int bsi in
+    let basis = zl_of_hex basis and src = zl_of_hex src in
+    let d = m_delta bsn (m_signature bsn basis) src in
+    let r = match m_patch false true basis d with POk o -> "POk " ^ czl o | PErrBounds -> "PErrBounds" | PErrIo -> "PErrIo" | PErrChecksum -> "PErrChecksum" | PPanic -> "PPanic" in
+    example
+      (Printf.sprintf "(let d := m_delta (Z.to_nat %d) (m_signature (Z.to_nat %d) %s) %s in (d_block_size _ d, d_source_size _ d, d_basis_size _ d, d_ops _ d, m_patch false true %s d))"
+         bsi bsi (czl basis) (czl src) (czl basis))
+      (Printf.sprintf "(%s, %s, %s, %s, %s)" (cz d.d_block_size) (cz d.d_source_size) (cz d.d_basis_size) (clist cop d.d_ops) r)
+  | _ -> ()
+
+let cmeta m = Printf.sprintf "{| Plan.fm_size := %s; Plan.fm_mtime := %s |}" (cz m.fm_size) (cz m.fm_mtime)
+let cmap m = clist (fun (p, fm) -> Printf.sprintf "(%s, %s)" (czl p) (cmeta fm)) m
+let canary_c19 line =
+  match split_ws line with
+  | _ :: "G" :: pat :: text :: _ ->
+    let p = chars_of_hex pat and t = chars_of_hex text in
+    example (Printf.sprintf "(m_glob_match %s %s, m_gm %s %s)" (czl p) (czl t) (czl p) (czl t))
+      (Printf.sprintf "(%s, %s)" (cbool (m_glob_match p t)) (cbool (m_gm p t)))
+  | _ :: "E" :: rel :: n :: rest ->
+    let (pats, _) = take_n (int_of_string n) rest in
+    let pats = List.map chars_of_hex pats and rel = chars_of_hex rel in
+    example (Printf.sprintf "(m_is_excluded %s %s, m_is_excluded_gm %s %s)" (czl rel) (clist czl pats) (czl rel) (clist czl pats))
+      (Printf.sprintf "(%s, %s)" (cbool (m_is_excluded rel pats)) (cbool (m_is_excluded_gm rel pats)))
+  | _ :: "P" :: del :: n :: rest ->
+    let (pats, rest) = take_n (int_of_string n) rest in
+    let read_map rest =
+      match rest with
+      | cnt :: rest ->
+        let (fields, rest) = take_n (3 * int_of_string cnt) rest in
+        let rec build m = function
+          | p :: sz :: mt :: r -> build (m_mm_insert (chars_of_hex p) { fm_size = z_of_dec sz; fm_mtime = z_of_sdec mt } m) r
+          | _ -> m in
+        (build [] fields, rest)
+      | [] -> failwith "short case" in
+    let (src, rest) = read_map rest in
+    let (dst, _) = read_map rest in
+    let pats = List.map chars_of_hex pats in
+    let plan = m_build_plan src dst pats (del = "1") in
+    example (Printf.sprintf "(let p := m_build_plan %s %s %s %s in (Plan.transfer p, Plan.skipped p, Plan.sp_delete p))" (cmap src) (cmap dst) (clist czl pats) (cbool (del = "1")))
+      (Printf.sprintf "(%s, %s, %s)" (clist czl plan.transfer) (cz plan.skipped) (clist czl plan.sp_delete))
+  | _ :: "L" :: bytes :: _ when String.length bytes <= 600 ->
+    let b = zl_of_hex bytes in
+    example (Printf.sprintf "m_parse_listing %s" (czl b)) (cmap (m_parse_listing b))
+  | _ -> ()
+
+let cact = function
+  | Noop -> "Reconcile.Noop" | PropagateAtoB -> "Reconcile.PropagateAtoB" | PropagateBtoA -> "Reconcile.PropagateBtoA"
+  | ConvergeIdentical -> "Reconcile.ConvergeIdentical" | DeleteA -> "Reconcile.DeleteA" | DeleteB -> "Reconcile.DeleteB"
+  | Conflict BothChanged -> "Reconcile.Conflict Reconcile.BothChanged" | Conflict DeleteVsModify -> "Reconcile.Conflict Reconcile.DeleteVsModify"
+let cfp fp = Printf.sprintf "{| Reconcile.blake3 := %s; Reconcile.ftype := %s |}" (czl fp.blake3) (match fp.ftype with File -> "Reconcile.File" | Symlink -> "Reconcile.Symlink")
+let cfpmap m = clist (fun (p, fp) -> Printf.sprintf "(%s, %s)" (czl p) (cfp fp)) m
+let canary_c18 line =
+  match split_ws line with
+  | _ :: "R" :: a :: b :: z :: _ ->
+    let a = parse_fp a and b = parse_fp b and z = parse_fp z in
+    example (Printf.sprintf "(m_reconcile_path %s %s %s, m_table %s %s %s)" (copt cfp a) (copt cfp b) (copt cfp z) (copt cfp a) (copt cfp b) (copt cfp z))
+      (Printf.sprintf "(%s, %s)" (cact (m_reconcile_path a b z)) (cact (m_table a b z)))
+  | _ :: "T" :: trust :: rest ->
+    let read_map rest =
+      match rest with
+      | cnt :: rest ->
+        let (fields, rest) = take_n (2 * int_of_string cnt) rest in
+        let rec build m = function
+          | p :: f :: r -> (match parse_fp f with Some fp -> build (m_fp_insert (zl_of_hex p) fp m) r | None -> failwith "absent fp in a map")
+          | _ -> m in
+        (build [] fields, rest)
+      | [] -> failwith "short case" in
+    let (a, rest) = read_map rest in
+    let (b, rest) = read_map rest in
+    let (z, _) = read_map rest in
+    let res = m_reconcile a b z (trust = "1") in
+    example (Printf.sprintf "m_reconcile %s %s %s %s" (cfpmap a) (cfpmap b) (cfpmap z) (cbool (trust = "1")))
+      (clist (fun (p, x) -> Printf.sprintf "(%s, %s)" (czl p) (cact x)) res)
+  | _ -> ()
+
+let canary_header () =
+  print_string "From Coq Require Import ZArith List.\nFrom Copia Require Import Model.Checksum Model.Delta Extract.Wrappers.\nFrom Copia Require Model.Plan Model.Reconcile.\nImport ListNotations.\nOpen Scope Z_scope.\n"
+
 let () =
   match Array.to_list Sys.argv with
   | _ :: "c17" :: file :: _ -> iter_lines file (c17_line false)
@@ -657,4 +775,8 @@ let () =
   | _ :: "c20" :: file :: _ -> iter_lines file c20_line
   | _ :: "c19" :: file :: _ -> iter_lines file c19_line
   | _ :: "c18" :: file :: _ -> iter_lines file c18_line
+  | _ :: "canary-c17" :: file :: _ -> canary_header (); iter_lines file canary_c17
+  | _ :: "canary-cdelta" :: file :: _ -> canary_header (); iter_lines file canary_cdelta
+  | _ :: "canary-c19" :: file :: _ -> canary_header (); iter_lines file canary_c19
+  | _ :: "canary-c18" :: file :: _ -> canary_header (); iter_lines file canary_c18
   | _ -> prerr_endline "usage: driver <kind> <cases file>"; exit 2
